@@ -66,6 +66,9 @@ var (
 	amts3 = []int64{valueV/2 - 1, valueV / 2, valueV}
 	ctlR  = []string{"r:1", "r:2", "r:3", "c", "t", "b"}
 	ctlH  = []string{"r:1", "r:2", "r:3", "c", "s:r", "s:w", "t", "b"}
+	// ctlRs: SettleHodlInvoice with the invoice's own preimage on a NON-hold kind (axis audit: the
+	// control event x invoice kind crossing; update_invoice.go settleHodlInvoice `!HodlInvoice`)
+	ctlRs = []string{"r:1", "r:2", "r:3", "c", "s:r", "t", "b"}
 )
 
 // spaces crosses the event-sequence spaces (baseSpaces) with the circuit-key schemes:
@@ -123,6 +126,9 @@ func spaces(thorough bool) []Space {
 		}
 	}
 	for _, sp := range main {
+		if !thorough && strings.HasSuffix(sp.Name, "-expiry") {
+			continue // the watcher spaces do not depend on key values; quick tier: wide only
+		}
 		out = append(out, twin(sp, "plain"))
 	}
 	return out
@@ -192,21 +198,22 @@ func specialSpaces(depth int, thorough bool) []Space {
 	// address, a legacy HTLC on the bystander's hash
 	foreign := []string{"h:Mo0:1000:ok", "h:Yr0:1000:ok", "h:Yw0:1000:ok", "h:Yz0:1000:ok", "h:y:1000:ok"}
 	sp := []Space{
-		{Name: "regular-special", Kind: "regular", Pays: []string{"L", "Mr0", "Mz0", "Mrz", "Mzz", "Zr0", "Zz0"}, Amts: am, Exps: ex, Ctl: ctlR, Depth: depth, Two: true,
+		{Name: "regular-special", Kind: "regular", Pays: []string{"L", "Mr0", "Mz0", "Mrz", "Mzz", "Zr0", "Zz0"}, Amts: am, Exps: ex, Ctl: ctlRs, Depth: depth, Two: true,
 			Extra: append(append([]string{}, foreign...), "h:kw:1000:ok", "h:kz:1000:ok", "h:A2sr0g:1000:ok", "h:A2so0g:1000:ok",
-				"h:Mr0:1000:x", "h:Mr0:1000:X", "h:MrH:H:ok", "h:MrG:H:ok", "h:L:I:ok")},
+				"h:Mr0:1000:x", "h:Mr0:1000:X", "h:MrH:H:ok", "h:MrG:H:ok", "h:L:I:ok", "h:a2s:1000:ok")},
 		{Name: "hold-special", Kind: "hold", Pays: []string{"L", "Mr0", "Mz0", "Mrz", "Zr0"}, Amts: am, Exps: ex, Ctl: ctlHz, Depth: depth, Two: true,
 			Extra: append(append([]string{}, foreign...), "h:kw:1000:ok", "h:A2sr0g:1000:ok", "h:MrG:H:x")},
-		{Name: "zero-special", Kind: "zero", Pays: []string{"L", "Mr0", "Mz0", "Mrz", "Mzz", "Zr0"}, Amts: am, Exps: ex, Ctl: ctlR, Depth: depth, Two: true,
+		{Name: "zero-special", Kind: "zero", Pays: []string{"L", "Mr0", "Mz0", "Mrz", "Mzz", "Zr0"}, Amts: am, Exps: ex, Ctl: ctlRs, Depth: depth, Two: true,
 			Extra: append(append([]string{}, foreign...), "h:kw:1000:ok")},
-		{Name: "blinded-special", Kind: "blinded", Pays: []string{"L", "Pr0", "Pz0", "Prz", "Pzz", "Mz0", "Zr0"}, Amts: am, Exps: ex, Ctl: ctlR, Depth: depth, Two: true,
-			Extra: append(append([]string{}, foreign...), "h:Po0:1000:ok")},
-		{Name: "keysend-special", Kind: "keysend", Pays: []string{"Kr", "Kz", "Km", "L", "Mz0", "Mr0", "Zz0"}, Amts: am, Exps: ex, Ctl: ctlR, Depth: depth},
+		{Name: "blinded-special", Kind: "blinded", Pays: []string{"L", "Pr0", "Pz0", "Prz", "Pzz", "Mz0", "Zr0"}, Amts: am, Exps: ex, Ctl: ctlRs, Depth: depth, Two: true,
+			Extra: append(append([]string{}, foreign...), "h:Po0:1000:ok", "h:a2s:1000:ok")},
+		{Name: "keysend-special", Kind: "keysend", Pays: []string{"Kr", "Kz", "Km", "L", "Mz0", "Mr0", "Zz0"}, Amts: am, Exps: ex, Ctl: ctlRs, Depth: depth},
 		{Name: "amp-special", Kind: "amp", Pays: []string{"A2sr0g", "A3sr0g", "A2sz0g", "A2srzg", "A10r0g", "A11r0g", "A11z0g", "A30r0g", "Mz0"}, Amts: am, Exps: []string{"ok"}, Ctl: ctlR, Depth: depth, Two: true,
-			Extra: append(append([]string{}, foreign...), "h:A2so0g:1000:ok")},
+			Extra: append(append([]string{}, foreign...), "h:A2so0g:1000:ok", "h:a2s:1000:ok")},
 	}
 	if thorough {
-		sp = append(sp, Space{Name: "ampjit-special", Kind: "ampjit", Pays: []string{"A2sr0g", "A3sr0g", "A2sz0g", "A2srzg", "A10r0g", "A11r0g"}, Amts: am, Exps: []string{"ok"}, Ctl: ctlR, Depth: 3})
+		sp = append(sp, Space{Name: "ampjit-special", Kind: "ampjit", Pays: []string{"A2sr0g", "A3sr0g", "A2sz0g", "A2srzg", "A10r0g", "A11r0g"}, Amts: am, Exps: []string{"ok"}, Ctl: ctlR, Depth: 3,
+			Extra: []string{"h:a2s:1000:ok"}})
 	}
 	return sp
 }
@@ -245,7 +252,7 @@ func configSpaces(thorough bool) []Space {
 		{Name: "amp-restart", Kind: "amp", Pays: []string{"A10r0g", "A11r0g"}, Amts: []int64{valueV / 2}, Exps: ok,
 			Extra: []string{"h:A2sr0g:1000:ok"}, Ctl: []string{"r:1", "r:2", "c", "t", "R"}, Depth: 5 + d, Two: true},
 		{Name: "regular-jit", Kind: "regular-jit", Pays: []string{"L", "Mr0"}, Amts: half, Exps: ok,
-			Extra: []string{"h:kw:1000:ok", "h:kz:1000:ok", "h:A2sr0g:1000:ok", "h:A2so0g:1000:ok", "h:Mo0:1000:ok"},
+			Extra: []string{"h:kw:1000:ok", "h:kz:1000:ok", "h:A2sr0g:1000:ok", "h:A2so0g:1000:ok", "h:Mo0:1000:ok", "h:a2s:1000:ok"},
 			Ctl: []string{"r:1", "r:2", "c", "t"}, Depth: 3 + d, Two: true},
 		{Name: "ampjit-restart", Kind: "ampjit", Pays: []string{"A10r0g", "A11r0g"}, Amts: []int64{valueV / 2}, Exps: ok,
 			Extra: []string{"h:A2sr0g:1000:ok"}, Ctl: []string{"r:1", "r:2", "c", "t", "b", "R"}, Depth: 4 + d},
@@ -253,6 +260,7 @@ func configSpaces(thorough bool) []Space {
 			Extra: []string{"hx:Mr0:500:ok", "ha:Mr0:500:ok", "ha:Mr+:500:ok", "hx:L:1000:ok"},
 			Ctl: []string{"r:1", "r:2", "c", "t"}, Depth: 4 + d},
 	}
+	sp = append(sp, expirySpaces(thorough)...)
 	if thorough {
 		sp = append(sp,
 			Space{Name: "hold-zero", Kind: "holdzero", Pays: []string{"L", "Mr-", "Mr0"}, Amts: []int64{valueV/2 - 1, valueV / 2}, Exps: []string{"ok", "lo"},
@@ -266,6 +274,49 @@ func configSpaces(thorough bool) []Space {
 				Extra: []string{"hx:A11r0g:500:ok", "hx:A2sr0g:1000:ok", "ha:A2sr0g:500:ok"},
 				Ctl: []string{"r:1", "r:2", "c", "t"}, Depth: 5},
 		)
+	}
+	return sp
+}
+
+// expirySpaces (axis audit): the invoice expiry watcher as a live second actor. It cancels
+// through the registry's cancelInvoiceImpl(hash, force) -- the only caller with force = false:
+//
+//	"X"  the watcher's clock passes the time expiry of the invoice under test (once per history):
+//	     an Open invoice is canceled together with a partial set it holds; an Accepted one is left
+//	     alone (the update callback answers nil: the "no update" path of both stores); a Settled /
+//	     Canceled one refuses. A just-in-time keysend invoice (no payment request) is canceled
+//	     FORCED: an accepted held keysend payment is failed, a settled one must stay settled.
+//	"b"  every block is handed to the watcher as well: a hold invoice whose accepted HTLCs expire
+//	     within HoldExpiryDelta (= margin - 1: one block after an exact-margin HTLC arrived, two
+//	     after a margin+1 one) is canceled forced and its HTLCs are failed; SettleHodlInvoice and
+//	     replays come afterwards.
+//	"R"  the restarted registry re-populates a new watcher from FetchPendingInvoices.
+//
+// Oracle unchanged (settlement conjunction, monotone, amtpaid, replay, both, KV == SQL); the
+// on-the-fly garbage collection is accepted after a watcher cancel like after CancelInvoice.
+func expirySpaces(thorough bool) []Space {
+	d := 0
+	exps := []string{"ok"}
+	if thorough {
+		d = 1
+		exps = []string{"ok", "hi"}
+	}
+	half := []int64{valueV / 2, valueV}
+	sp := []Space{
+		{Name: "hold-expiry", Kind: "hold-x", Pays: []string{"Mr0"}, Amts: half, Exps: exps,
+			Ctl: []string{"r:1", "r:2", "c", "s:r", "t", "b", "X", "R"}, Depth: 4 + d, Two: true},
+		{Name: "hold-gc-expiry", Kind: "hold-gc-x", Pays: []string{"Mr0"}, Amts: half, Exps: []string{"ok"},
+			Ctl: []string{"r:1", "s:r", "b", "X", "R"}, Depth: 4 + d, Two: true},
+		{Name: "regular-expiry", Kind: "regular-x", Pays: []string{"Mr0"}, Amts: half, Exps: []string{"ok"},
+			Ctl: []string{"r:1", "r:2", "c", "t", "X", "R"}, Depth: 4 + d, Two: true},
+		{Name: "kshold-expiry", Kind: "kshold-x", Pays: []string{"Kr"}, Amts: []int64{valueV}, Exps: []string{"ok"},
+			Ctl: []string{"r:1", "r:2", "c", "s:r", "b", "X", "R"}, Depth: 4 + d},
+		{Name: "keysend-expiry", Kind: "keysend-x", Pays: []string{"Kr"}, Amts: []int64{valueV}, Exps: []string{"ok"},
+			Ctl: []string{"r:1", "b", "X", "R"}, Depth: 4},
+	}
+	if thorough {
+		sp = append(sp, Space{Name: "amp-expiry", Kind: "amp-x", Pays: []string{"A10r0g", "A11r0g"}, Amts: []int64{valueV / 2}, Exps: []string{"ok"},
+			Extra: []string{"h:A2sr0g:1000:ok"}, Ctl: []string{"r:1", "r:2", "t", "X", "R"}, Depth: 5, Two: true})
 	}
 	return sp
 }
